@@ -1,9 +1,11 @@
 import TracklibVerif.Model.Seq
+import TracklibVerif.Model.SeqOps
 import TracklibVerif.Drv.Util
 /-! Driver handler for C04 (sequence operations of `Track`).
 
 An observation is the token `tag:time[:feat…]`, a list of observations is `,`-separated (`_` = empty),
-a name table is a `,`-separated list (`_` = empty). A track reply is `<pts> <names>`.
+a feature table is a `,`-separated list of `name:column` (`_` = empty; a bare `name` in a request takes its
+position as column). A track reply is `<pts> <table>`.
   index <times> <ts>                        → `ok <id>` | `err:index` | `fuel`
   indexj <j> <times> <ts>                   → same, first step 2^j
   ilog2 <lo> <hi>                           → `ilog2 N` for N = lo..hi-1 (`,`-separated)
@@ -15,7 +17,13 @@ a name table is a `,`-separated list (`_` = empty). A track reply is `<pts> <nam
   concat <pts1> <names1> <pts2> <names2>    → track
   step <pts> <names> <n>                    → track | err:value
   pattern <pts> <names> <pattern 0/1 string or _> → track | err:zerodiv
-  gt <pts> <names> <n> ,  lt <pts> <names> <n>     → track -/
+  gt <pts> <names> <n> ,  lt <pts> <names> <n>     → track
+  radix <digits of obs 0>;<digits of obs 1>;…      → the positions in their new order | err:index
+        (six digits per observation, least significant first: sec*1000+ms, min, hour, day-1, month-1, year)
+  session <tracks> <ops>                           → one `out|k|pts|table|reads` per operation, `;`-separated
+        tracks: `;`-separated `T<pts>`; ops: `;`-separated, fields separated by `/` (see `op?`);
+        k = position in the pool of the track created / modified (`-` = none), followed by that track and, for
+        every name of its table, what every observation reads under that name (`v<int>` | `K` | `I`). -/
 namespace TV.Drv.C04
 open TV.Seq TV.Drv
 
@@ -25,15 +33,21 @@ def obs? (s : String) : Option Obs :=
   | _ => none
 
 def pts? (s : String) : Option (List Obs) := (splitTok s ',').mapM obs?
-def names? (s : String) : Option (List String) := some (splitTok s ',')
+def table? (s : String) : Option Table :=
+  (splitTok s ',').zipIdx.mapM (fun (e, i) =>
+    match e.splitOn ":" with
+    | [nm] => some (nm, i)
+    | [nm, c] => c.toNat?.map (fun c => (nm, c))
+    | _ => none)
 def track? (p n : String) : Option Track := do
   let ps ← pts? p
-  let ns ← names? n
-  some ⟨ps, ns⟩
+  let tb ← table? n
+  some ⟨ps, tb⟩
 
 def showObs (o : Obs) : String := ":".intercalate (toString o.tag :: toString o.time :: o.feats.map toString)
 def showPts (l : List Obs) : String := showList showObs l
-def showTrack (t : Track) : String := showPts t.pts ++ " " ++ joinWith "," t.names
+def showTable (tb : Table) : String := showList (fun p => p.1 ++ ":" ++ toString p.2) tb
+def showTrack (t : Track) : String := showPts t.pts ++ " " ++ showTable t.table
 def showRes : Res → String
   | .ok id => s!"ok {id}"
   | .indexErr => "err:index"
@@ -41,8 +55,104 @@ def showRes : Res → String
 def pat? (s : String) : Option (List Bool) :=
   if s == "_" then some [] else s.toList.mapM (fun c => if c == '1' then some true else if c == '0' then some false else none)
 
+def optInt? (s : String) : Option (Option Int) := if s == "N" then some none else s.toInt?.map some
+def vals? (s : String) : Option (List (String × Int)) :=
+  (splitTok s ',').mapM (fun e => match e.splitOn "=" with
+    | [nm, v] => v.toInt?.map (fun v => (nm, v))
+    | _ => none)
+
+/-- an operation of a session: fields separated by `/` -/
+def op? (s : String) : Option Op :=
+  match s.splitOn "/" with
+  | ["extract", k, a, b] => do some (.extract (← k.toNat?) (← a.toInt?) (← b.toInt?))
+  | ["span", k, a, b] => do some (.span (← k.toNat?) (← a.toInt?) (← b.toInt?))
+  | ["spantrack", k, m] => do some (.spanTrack (← k.toNat?) (← m.toNat?))
+  | ["add", k, m] => do some (.add (← k.toNat?) (← m.toNat?))
+  | ["step", k, n] => do some (.step (← k.toNat?) (← n.toInt?))
+  | ["pattern", k, p] => do some (.pattern (← k.toNat?) (← pat? p))
+  | ["gt", k, n] => do some (.gt (← k.toNat?) (← n.toInt?))
+  | ["lt", k, n] => do some (.lt (← k.toNat?) (← n.toInt?))
+  | ["slice", k, a, b, c] => do some (.slice (← k.toNat?) (← optInt? a) (← optInt? b) (← optInt? c))
+  | ["sort", k] => do some (.sort (← k.toNat?))
+  | ["insert", k, tag, t, vs] => do some (.insert (← k.toNat?) (← tag.toNat?) (← t.toInt?) (← vals? vs))
+  | ["insertat", k, i, tag, t, vs] => do some (.insertAt (← k.toNat?) (← i.toInt?) (← tag.toNat?) (← t.toInt?) (← vals? vs))
+  | ["addobs", k, tag, t, vs] => do some (.addObs (← k.toNat?) (← tag.toNat?) (← t.toInt?) (← vals? vs))
+  | ["remove", k, ix] => do some (.remove (← k.toNat?) (← intList? ix))
+  | ["removeobs", k, i] => do some (.removeObs (← k.toNat?) (← i.toInt?))
+  | ["removefirst", k] => do some (.removeFirst (← k.toNat?))
+  | ["removelast", k] => do some (.removeLast (← k.toNat?))
+  | ["pop", k, i] => do some (.pop (← k.toNat?) (← i.toInt?))
+  | ["get", k, i] => do some (.get (← k.toNat?) (← i.toInt?))
+  | ["read", k, nm, i] => do some (.read (← k.toNat?) nm (← i.toInt?))
+  | ["column", k, nm] => do some (.column (← k.toNat?) nm)
+  | ["create", k, nm, vs] => do some (.create (← k.toNat?) nm (← intList? vs))
+  | ["delete", k, nm] => do some (.delete (← k.toNat?) nm)
+  | _ => none
+
+def showRd : Rd → String
+  | .val v => "v" ++ toString v
+  | .noFeature => "K"
+  | .indexErr => "I"
+def showOut : Out → String
+  | .done => "done"
+  | .count n => s!"count={n}"
+  | .obs t => s!"obs={t}"
+  | .value r => "value=" ++ showRd r
+  | .values rs => "values=" ++ showList showRd rs
+  | .error k => "err:" ++ k
+  | .noTrack => "notrack"
+def showReads (t : Track) : String :=
+  joinWith "+" (t.names.map (fun nm => nm ++ "=" ++ showList showRd ((List.range t.pts.length).map (fun (i : Nat) => readAF t nm (i : Int)))))
+
+/-- the position of the track an operation creates (the new last one) or modifies -/
+def touched (before after : List Track) : Op → Option Nat
+  | .extract .. | .span .. | .spanTrack .. | .add .. | .step .. | .pattern .. | .gt .. | .lt .. | .slice .. =>
+    if after.length > before.length then some (after.length - 1) else none
+  | .sort k | .insert k .. | .insertAt k .. | .addObs k .. | .remove k .. | .removeObs k .. | .removeFirst k
+  | .removeLast k | .pop k .. | .create k .. | .delete k .. => some k
+  | .get .. | .read .. | .column .. => none
+
+def showStep (before : List Track) (op : Op) (r : List Track × Out) : String :=
+  showOut r.2 ++ "|" ++
+    (match touched before r.1 op with
+     | none => "-|_|_|_"
+     | some k => match r.1[k]? with
+       | none => "-|_|_|_"
+       | some t => toString k ++ "|" ++ showPts t.pts ++ "|" ++ showTable t.table ++ "|" ++ showReads t)
+
+def isError : Out → Bool
+  | .error _ => true
+  | _ => false
+
+/-- the replies of a session: it stops after the first operation that raises (as the harness does with the real code);
+`none` = an operation designates a track that is not in the pool -/
+def showRun : List Track → List Op → Option (List String)
+  | _, [] => some []
+  | pool, op :: rest =>
+    let r := applyOp pool op
+    if r.2 == .noTrack then none
+    else if isError r.2 then some [showStep pool op r]
+    else (showRun r.1 rest).map (showStep pool op r :: ·)
+
 def handle (cmd : String) (args : List String) : String :=
   match cmd, args with
+  | "session", [ts, os] =>
+    match (splitTok ts ';').mapM (fun t => if t.startsWith "T" then (pts? (t.drop 1).toString).map (fun p => (⟨p, []⟩ : Track)) else none),
+          (splitTok os ';').mapM op? with
+    | some pool, some ops =>
+      match showRun pool ops with
+      | some l => joinWith ";" l
+      | none => "bad-request"
+    | _, _ => "bad-request"
+  | "radix", [ds] =>
+    match intListList? ds with
+    | some D =>
+      if D.all (fun d => d.length == radixBuckets.length + 1) then
+        match sortRadixIds (fun i => D.getD i []) D.length with
+        | some ids => showList toString ids
+        | none => "err:index"
+      else "bad-request"
+    | none => "bad-request"
   | "index", [ts, t] =>
     match intList? ts, t.toInt? with
     | some T, some t => showRes (insertionIndex T t)
